@@ -64,6 +64,7 @@ pub fn subject_cfg(rng: &mut Rng, tier: Tier) -> GenCfg {
         likely_true: 0,
         unsupported: if rng.chance(1, 6) { 1 } else { 0 },
         placeholder_strings: false,
+        risky_specials: false,
     }
 }
 
@@ -126,7 +127,10 @@ pub fn scenario(rng: &mut Rng, tier: Tier) -> Scenario {
     let w_logger = rng.range(0, 2);
     let w_env = rng.range(0, 2);
     let total = w_parse + w_compile + w_render + w_iomap + w_unrelated + w_clock + w_thread + w_epoch + w_logger + w_env;
-    let n_ops = rng.range(10, 60) as usize;
+    // one run in a hundred is a long history (state that needs many calls to build up: bounded
+    // caches, counters, interners)
+    let long = rng.chance(1, 100);
+    let n_ops = if long { *rng.pick(&[150usize, 300, 600]) } else { rng.range(10, 60) as usize };
     let n_slots = rng.range(1, 4) as usize;
     let mut ops = vec![];
     for _ in 0..n_ops {
